@@ -307,6 +307,7 @@ var nearMisses = [][2]string{
 	{`"\ude04\ud83d"`, "escape"}, {`"\ud83dx"`, "escape"}, {`"\ud83d\u0041"`, "escape"}, {`"\u12G4"`, "escape"}, {`"\u{12G}"`, "escape"},
 	{`"\u{12"`, "escape"}, {`$."\u00"`, "escape"}, {`$.a\u00`, "escape"}, {`$.a\x0`, "escape"}, {`$.\u0000`, "escape"},
 	{`$"\x00"`, "escape"}, {`"\`, "escape"}, {`$.a\`, "escape"}, {`"\ude04"`, "escape"},
+	{`"\udc00\udc00"`, "escape"}, {`"\u{dc00}\u{dc00}"`, "escape"}, {`$."\udfff\udc00"`, "escape"}, {`$.a\udc00\udc01`, "escape"}, {`$"\ude00\ude00"`, "escape"}, {`"\ud800\ud800"`, "escape"}, {`"\udc00\ud800"`, "escape"}, {`"x\udbff"`, "escape"},
 	// strings and comments
 	{`"abc`, "unterminated-string"}, {"\"a\nb\"", "newline-in-string"}, {`$."abc`, "unterminated-string"}, {`$"abc`, "unterminated-string"},
 	{"$ /* c", "unterminated-comment"}, {"/* $", "unterminated-comment"}, {"$.a /*/", "unterminated-comment"}, {"$ /* * /", "unterminated-comment"},
@@ -343,7 +344,7 @@ var tokenDict = []string{
 	"\"a\"", "\"\"", "\"\\u00e9\"", "\"\\x41\"", "\"\\u{1F600}\"", "\"\\ud83d\\ude04\"", "$v", "$\"v w\"", "a", "_a", "\\u0061", "\\x61",
 	".abs()", ".size()", ".type()", ".floor()", ".ceiling()", ".double()", ".keyvalue()", ".bigint()", ".boolean()", ".integer()", ".number()", ".string()",
 	".decimal(", ".decimal(5,2)", ".datetime()", ".datetime(\"HH24\")", ".date()", ".time()", ".time(3)", ".time_tz()", ".timestamp()", ".timestamp_tz(6)",
-	"true", "false", "null", " ", "\t", "\n", "/*", "*/", "/* c */", "\\", "\"", "'", "\x00", "\xff", "\xc3", "\u00e9", "\U0001F600", "--", "- -", "-(-1)", "+-", "\\u", "\\u{", "\\x",
+	"true", "false", "null", " ", "\t", "\n", "/*", "*/", "/* c */", "\\", "\"", "'", "\x00", "\xff", "\xc3", "\u00e9", "\U0001F600", "--", "- -", "-(-1)", "+-", "- -0", "-(-0)", "-(-0.0)", "- -0x0", "-(-.0)", "- - 0e3", "-(-(-0))", "- -0b0", "-(- 0.)", "\\u", "\\u{", "\\x",
 }
 
 func runC04(c *h.Ctx) {
